@@ -26,7 +26,10 @@ def main(argv):
     bad = 0
     for prop in props:
         mod = importlib.import_module("sim.props." + prop.lower())
+        only = os.environ.get("VERIF_DET_LEGS")
         for leg in mod.LEGS:
+            if only and leg["name"] not in only.split(","):
+                continue
             if not interp.available(leg["python"]):
                 continue
             for seed in (0, 12345):
